@@ -163,7 +163,6 @@ func (k *Keeper) Slash(ctx sdk.Context, parameter *types.SlashInputInfo) error {
 	if err != nil {
 		return err
 	}
-	writeFunc()
 	// store the slash information
 	height := ctx.BlockHeight()
 	slashInfo := types.OperatorSlashInfo{
@@ -174,10 +173,14 @@ func (k *Keeper) Slash(ctx sdk.Context, parameter *types.SlashInputInfo) error {
 		SlashProportion: parameter.SlashProportion,
 		ExecutionInfo:   executionInfo,
 	}
-	err = k.UpdateOperatorSlashInfo(ctx, parameter.Operator.String(), parameter.AVSAddr, parameter.SlashID, slashInfo)
+	// the slash information is validated (duplicate slash ID, slash contract, proportion) and
+	// stored in the same cache context as the asset changes, so that a rejected slash - in
+	// particular a replayed slash ID - does not slash the assets.
+	err = k.UpdateOperatorSlashInfo(cc, parameter.Operator.String(), parameter.AVSAddr, parameter.SlashID, slashInfo)
 	if err != nil {
 		return err
 	}
+	writeFunc()
 	return nil
 }
 
